@@ -1,0 +1,184 @@
+//go:build verif
+// +build verif
+
+package coordinator
+
+// Machine-checked contracts for the coordinator (read by /verif/engine, see /verif/DESIGN.md).
+// This file contains comments only and is excluded from every normal build by the tag "verif".
+
+/*@
+// ---------- ghost state ----------
+// running loads: what the shard reported in this cycle plus everything placed on it so far (C04)
+ghost field shardInfo.gHead int
+ghost field shardInfo.gProc int
+// ownership back-pointers (make distinct shards have distinct runtime objects and scraping maps)
+ghost field shard.RuntimeInfo.gOwner ref
+ghost global gScrOwner seq[int]
+
+// ---------- well-formedness: what getOneShardInfo and a real sidecar establish ----------
+pred wfOpt(c) = c != nil && c.option != nil && c.option.MaxProcessSeries > 0 && c.option.MaxHeadSeries >= 0
+
+pred wfStatus(st) = st != nil && st.Series >= 0 && st.TotalSeries >= 0
+
+pred wfShard(s) = s != nil && s.runtime != nil && s.shard != nil
+    && (s.changeAble ==> s.scraping != nil)
+    && s.runtime.HeadSeries >= 0 && s.runtime.ProcessSeries >= 0
+    && (forall h, st in s.scraping :: wfStatus(st))
+    && s.gHead == s.runtime.HeadSeries && s.gProc == s.runtime.ProcessSeries
+    && s.runtime.gOwner == s
+    && (s.scraping != nil ==> gScrOwner[s.scraping] == s)
+
+pred wfShards(shards) = forall s in shards :: wfShard(s)
+
+pred fitsShard(c, s, head, proc) =
+    (c.option.MaxHeadSeries == 0 || s.runtime.HeadSeries + head < c.option.MaxHeadSeries)
+    && s.runtime.ProcessSeries + proc < c.option.MaxProcessSeries
+
+// ---------- C04 / C08: every placement (insert into a shard's planned set) ----------
+on insert shardInfo.scraping(s, k, v)
+   do s.gHead = s.gHead + v.Series
+   do s.gProc = s.gProc + v.TotalSeries
+   assert[C04] @head_limit  c.option.MaxHeadSeries == 0 || s.gHead < c.option.MaxHeadSeries
+   assert[C04] @process_limit  s.gProc < c.option.MaxProcessSeries
+   assert[C08] @destination_in_sync  s.changeAble
+
+// ---------- leaf helpers ----------
+contract Coordinator.isTooBig
+  requires wfOpt(c) && tar != nil
+  ensures[C04] @toobig_spec result == ((c.option.MaxHeadSeries != 0 && tar.Series > c.option.MaxHeadSeries) || tar.Series > c.option.MaxProcessSeries || tar.TotalSeries > c.option.MaxProcessSeries)
+  modifies nothing
+
+contract space.add
+  requires s != nil
+  ensures s.headSpace == old(s.headSpace) + src.headSpace && s.processSpace == old(s.processSpace) + src.processSpace
+  modifies space.headSpace at {s}, space.processSpace at {s}
+
+contract space.isZero
+  requires s != nil
+  ensures result == (s.headSpace == 0 && s.processSpace == 0)
+  modifies nothing
+
+contract shardInfo.totalTargetsHeadSeries
+  requires wfShard(s)
+  modifies nothing
+
+contract shardInfo.totalTargetsTotalSeries
+  requires wfShard(s)
+  modifies nothing
+
+pred goodChoice(c, shards, sp, ch) = isptr(ch.Item, shardInfo) && asptr(ch.Item, shardInfo) in shards
+    && asptr(ch.Item, shardInfo).changeAble
+    && fitsShard(c, asptr(ch.Item, shardInfo), sp.headSpace, sp.processSpace)
+    && ch.Weight >= 1
+
+contract Coordinator.getFreeShard
+  requires wfOpt(c) && wfShards(shards) && sp.headSpace >= 0 && sp.processSpace >= 0
+  ensures[C04,C08] @free_shard_fits result != nil ==> result in shards && result.changeAble && fitsShard(c, result, sp.headSpace, sp.processSpace)
+  modifies nothing
+  loop 1 invariant fresh(cs)
+  loop 1 invariant forall j in 0..len(cs) :: goodChoice(c, shards, sp, cs[j])
+
+contract changeAbleShardsInfo
+  requires forall s in shards :: s != nil
+  ensures forall s in result :: s in shards && s.changeAble
+  ensures forall s in shards :: s.changeAble ==> s in result
+  ensures len(result) <= len(shards) && ((forall s in shards :: s.changeAble) ==> len(result) == len(shards))
+  ensures fresh(result)
+  modifies nothing
+  loop 1 invariant forall s in ret :: s in shards && s.changeAble
+  loop 1 invariant forall j in 0..idx1 :: shards[j].changeAble ==> shards[j] in ret
+  loop 1 invariant len(ret) <= idx1 && ((forall j in 0..idx1 :: shards[j].changeAble) ==> len(ret) == idx1)
+  loop 1 invariant fresh(ret)
+
+// ---------- planning steps ----------
+pred allChangeAble(shards) = forall s in shards :: s.changeAble
+
+// the planning steps only add to planned sets (C01: nothing is taken away after gcTargets)
+pred monotone(shards) = forall s in shards :: forall h in old(keys(s.scraping)) :: h in s.scraping
+
+// shards outside the slice handed to a step keep their planned set (their map is not written)
+pred othersKeepKeys(shards) = forall o : *shardInfo ::
+    (o.scraping != nil && gScrOwner[o.scraping] == o && !(o in shards)) ==> keys(o.scraping) == old(keys(o.scraping))
+
+contract Coordinator.alleviateShardHeadSeries
+  requires wfOpt(c) && wfShards(changeAbleShards) && allChangeAble(changeAbleShards) && s in changeAbleShards
+  ensures wfShards(changeAbleShards)
+  ensures[C01] monotone(changeAbleShards)
+  ensures othersKeepKeys(changeAbleShards)
+  modifies shard.RuntimeInfo.HeadSeries, shard.RuntimeInfo.ProcessSeries, target.ScrapeStatus.TargetState, target.ScrapeStatus.* at {},
+           mapof(shardInfo.scraping), shardInfo.gHead, shardInfo.gProc
+  loop 1 invariant wfShards(changeAbleShards)
+  loop 1 invariant[C01] monotone(changeAbleShards)
+  loop 1 invariant othersKeepKeys(changeAbleShards)
+  loop 2 invariant wfShards(changeAbleShards)
+  loop 2 invariant[C01] monotone(changeAbleShards)
+  loop 2 invariant othersKeepKeys(changeAbleShards)
+
+contract Coordinator.alleviateShardProcessSeries
+  requires wfOpt(c) && wfShards(changeAbleShards) && allChangeAble(changeAbleShards) && s in changeAbleShards
+  ensures wfShards(changeAbleShards)
+  ensures[C01] monotone(changeAbleShards)
+  ensures othersKeepKeys(changeAbleShards)
+  modifies shard.RuntimeInfo.HeadSeries, shard.RuntimeInfo.ProcessSeries, target.ScrapeStatus.TargetState, target.ScrapeStatus.* at {},
+           mapof(shardInfo.scraping), shardInfo.gHead, shardInfo.gProc
+  loop 1 invariant wfShards(changeAbleShards)
+  loop 1 invariant[C01] monotone(changeAbleShards)
+  loop 1 invariant othersKeepKeys(changeAbleShards)
+  loop 2 invariant wfShards(changeAbleShards)
+  loop 2 invariant[C01] monotone(changeAbleShards)
+  loop 2 invariant othersKeepKeys(changeAbleShards)
+
+contract Coordinator.alleviateShards
+  requires wfOpt(c) && wfShards(changeAbleShards) && allChangeAble(changeAbleShards)
+  ensures wfShards(changeAbleShards)
+  ensures[C01] monotone(changeAbleShards)
+  ensures othersKeepKeys(changeAbleShards)
+  modifies shard.RuntimeInfo.HeadSeries, shard.RuntimeInfo.ProcessSeries, target.ScrapeStatus.TargetState, target.ScrapeStatus.* at {},
+           mapof(shardInfo.scraping), shardInfo.gHead, shardInfo.gProc
+  loop 1 invariant wfShards(changeAbleShards)
+  loop 1 invariant[C01] monotone(changeAbleShards)
+  loop 1 invariant othersKeepKeys(changeAbleShards)
+  loop 2 invariant wfShards(changeAbleShards)
+  loop 2 invariant[C01] monotone(changeAbleShards)
+  loop 2 invariant othersKeepKeys(changeAbleShards)
+  loop 3 invariant wfShards(changeAbleShards)
+  loop 3 invariant[C01] monotone(changeAbleShards)
+  loop 3 invariant othersKeepKeys(changeAbleShards)
+
+pred wfActive(active) = forall h, t in active :: t != nil && t.ShardTarget != nil
+
+pred wfGlobal(g) = forall h, st in g :: st != nil ==> wfStatus(st)
+
+// "A target that alone exceeds a limit never causes a scale-up" (C04): only targets that are not too big
+// by the statement's definition are added to the space that is asked for.
+on call space.add(s, src) in Coordinator.assignNoScrapingTargets
+   assert[C04] @too_big_never_counted (c.option.MaxHeadSeries == 0 || src.headSpace <= c.option.MaxHeadSeries) && src.headSpace <= c.option.MaxProcessSeries && src.processSpace <= c.option.MaxProcessSeries
+
+// "Targets such a reachable shard reports scraping are not assigned a second time elsewhere" (C08):
+// a first assignment only for hashes no shard of the replica - in sync or not - reported.
+on insert shardInfo.scraping(s, k, v) in Coordinator.assignNoScrapingTargets
+   assert[C08] @not_assigned_twice forall t in shards :: !(k in old(keys(t.scraping)))
+
+contract Coordinator.assignNoScrapingTargets
+  requires wfOpt(c) && wfShards(shards) && wfActive(active) && wfGlobal(globalScrapeStatus)
+  requires forall s in shards :: s.scraping != globalScrapeStatus
+  ensures wfShards(shards)
+  ensures[C01] monotone(shards)
+  ensures othersKeepKeys(shards)
+  modifies shard.RuntimeInfo.HeadSeries, shard.RuntimeInfo.ProcessSeries,
+           mapof(shardInfo.scraping), shardInfo.gHead, shardInfo.gProc
+  loop 1 invariant forall j in 0..idx1 :: forall h in shards[j].scraping :: scraping[h]
+  loop 1 invariant fresh(scraping)
+  loop 2 invariant forall j in 0..idx1 :: forall h in shards[j].scraping :: scraping[h]
+  loop 2 invariant forall h in visited2 :: scraping[h]
+  loop 2 invariant fresh(scraping)
+  loop 3 invariant wfShards(shards) && wfGlobal(globalScrapeStatus)
+  loop 3 invariant[C01] monotone(shards)
+  loop 3 invariant othersKeepKeys(shards)
+
+contract Coordinator.tryScaleUp
+  requires wfOpt(c) && (forall s in shard :: s != nil)
+  ensures[C07] @never_below_current result >= len(shard)
+  ensures[C03] @more_space_more_shards ((forall s in shard :: s.changeAble) && sp.headSpace >= 0 && sp.processSpace >= 0 && (sp.headSpace > 0 || sp.processSpace > 0)) ==> result > len(shard)
+  modifies nothing
+@*/
